@@ -816,6 +816,9 @@ def c15(tier, seed):
     cases = [{'clen': c, 'k': k if c < 3 else k - 1, 'first': f1, 'second': f2} for c in range(0, 4 if tier == 'quick' else 5) for f1 in range(4) for f2 in range(4)]
     ck.add(run_cases(prog, asynck.run_async_reader_case, cases), 'AsyncReadableFile::poll_read/poll_seek vs the sync reader contract on symbolic scripts')
     u = UNIVERSES['U3']()
+    # (observing a path while a write handle on it is open is left unspecified by C01 and therefore by C15's quantifier; the
+    # unchanged tree does differ there: the sync writer publishes on flush, the async writer only when it is dropped. The
+    # held-handle differential of harness/twins.py ('create_hold'/'append_hold') is therefore not part of this check.)
     ops = [(op, v) for op in ALL_OPS for v in u.vars]
     tcases = []
     shs = shapes(u)
